@@ -577,7 +577,17 @@ pub fn run_prop<S>(
 /// Spawn `n` copies of this executable with `--shard i/n`, at most `par` at a time, and
 /// merge their reports.
 pub fn run_sharded(ctx: &Ctx, n: usize, par: usize) -> Report {
+    let mut merged = Report::new();
+    for (_, r) in run_sharded_raw(ctx, n, par, &[]) {
+        merged.merge(r);
+    }
+    merged
+}
+
+/// Like `run_sharded` but returns the individual shard reports (index, report).
+pub fn run_sharded_raw(ctx: &Ctx, n: usize, par: usize, env: &[(&str, String)]) -> Vec<(usize, Report)> {
     use std::process::{Command, Stdio};
+    let mut results: Vec<(usize, Report)> = vec![];
     let mut merged = Report::new();
     let scratch = ctx.scratch();
     let pid = std::process::id();
@@ -604,6 +614,7 @@ pub fn run_sharded(ctx: &Ctx, n: usize, par: usize) -> Report {
                 .arg(format!("{i}/{n}"))
                 .arg("--out")
                 .arg(&outp)
+                .envs(env.iter().map(|(k, v)| (k.to_string(), v.clone())))
                 .stdin(Stdio::null())
                 .stdout(Stdio::null())
                 .stderr(Stdio::inherit())
@@ -625,7 +636,7 @@ pub fn run_sharded(ctx: &Ctx, n: usize, par: usize) -> Report {
                     done += 1;
                     progressed = true;
                     match std::fs::read_to_string(&outp).ok().and_then(|s| serde_json::from_str::<Value>(&s).ok()) {
-                        Some(v) => merged.merge(Report::from_json(&v)),
+                        Some(v) => results.push((i, Report::from_json(&v))),
                         None => merged.infra_errors.push(format!("shard {i} produced no report (status {status})")),
                     }
                     let _ = std::fs::remove_file(&outp);
@@ -642,7 +653,11 @@ pub fn run_sharded(ctx: &Ctx, n: usize, par: usize) -> Report {
             std::thread::sleep(std::time::Duration::from_millis(10));
         }
     }
-    merged
+    results.sort_by_key(|x| x.0);
+    if !merged.infra_errors.is_empty() {
+        results.push((usize::MAX, merged));
+    }
+    results
 }
 
 // ---------------------------------------------------------------------------
